@@ -58,8 +58,8 @@ CHECKS = {
    note="Preconditions are the callers' obligations and are NOT carried: that each emit_* reports the interpreter's true stack effect (the larger half of 'stack size >= reachable depth'), that jump targets handed to fill_jump are instruction boundaries within 16 bits, that jump arguments above 255 are never relocated by write_arg (they are written as 0 behind a reserved EXTENDED_ARG and patched). Constant/name/local index ranges are not carried. Observed, not checked: for Python 3.10+ the generator still emits the 3.9 lnotab format. Assumed: std contracts of Vec::insert/get/get_mut/last/extend_from_slice, to_be_bytes; is_jump_op is an uninterpreted function of the opcode byte here (checked against CPython in C16).",
    technique=TECH_V + "; &mut-returning accessors specified with final(..); loop invariants and decreases measures spliced by loop ordinal"),
  "C15": dict(engine="verus+kani", category="proof",
-   text="PARTIAL: (reader, Verus, unbounded input length) Deserializer::take/take_byte/consume/deserialize_u32/deserialize_long/deserialize_bytes/deserialize_const never panic on any byte vector (every remove/drain/index is guarded; an allocation is never sized by an unchecked length field), return Err on short input, consume exactly what they decode, never grow the input, and terminate (recursion and loops of the tuple arms proved with a decreases measure). (writer) str_into_bytes and raw_string_into_bytes equal CPython's marshal encoding for every string below 4 GiB (Verus); ValueObj::into_bytes on Int, Nat (incl. the long format from 2**31), Float (bit-exact incl. -0.0, inf, NaN), Bool, None equals the marshal format, the type-byte table inverts, and reader(writer(x) ++ rest) == x on all those scalars (Kani, loop-free / bounded only by the 5 digits of a u64).",
-   note="Assumed: std contracts of Vec::drain/remove/insert/with_capacity, from_le_bytes/to_le_bytes, String::from_utf8; CodeObj::from_bytes as a callee of the Code arm (consumes >= 1 byte on success, never grows the input); the string and tuple arms of the reader are checked for totality only (their values go through interning caches); the Nat round trip is by transitivity through the marshal long format (writer == format, reader(format) == value). Bounded stand-in, not counted: vec_to_bytes<2|4|8> on vectors up to 10 bytes, raw_string_into_bytes on 2 bytes (Kani). Not carried: CodeObj::into_bytes/from_bytes field sequence, strs_into_bytes/tuple_into_bytes loops, CPython's unmarshaller itself (used as the oracle in replay only).",
+   text="PARTIAL: (reader, Verus, unbounded input length) Deserializer::take/take_byte/consume/deserialize_u32/deserialize_long/deserialize_bytes/deserialize_const/deserialize_const_vec/deserialize_str_vec/deserialize_str and CodeObj::from_bytes never panic on any byte vector (every remove/drain/index is guarded; an allocation is never sized by an unchecked length field), return Err on short input, consume exactly what they decode, never grow the input, and terminate (recursion and loops of the tuple arms, and the mutual recursion deserialize_const <-> CodeObj::from_bytes, proved with a lexicographic decreases measure). (writer) str_into_bytes and raw_string_into_bytes equal CPython's marshal encoding for every string below 4 GiB (Verus); ValueObj::into_bytes on Int, Nat (incl. the long format from 2**31), Float (bit-exact incl. -0.0, inf, NaN), Bool, None equals the marshal format, the type-byte table inverts, and reader(writer(x) ++ rest) == x on all those scalars (Kani, loop-free / bounded only by the 5 digits of a u64).",
+   note="Assumed: std contracts of Vec::drain/remove/insert/with_capacity, from_le_bytes/to_le_bytes, String::from_utf8; Deserializer::deserialize_locals (iterator zip: not expressible in Verus; never grows the input); the string and tuple arms of the reader are checked for totality only (their values go through interning caches); the Nat round trip is by transitivity through the marshal long format (writer == format, reader(format) == value). Bounded stand-in, not counted: vec_to_bytes<2|4|8> on vectors up to 10 bytes, raw_string_into_bytes on 2 bytes (Kani). Not carried: that CodeObj::into_bytes and from_bytes agree on the field sequence, CodeObj::from_pyc (file I/O), strs_into_bytes/tuple_into_bytes loops, CPython's unmarshaller itself (used as the oracle in replay only).",
    technique=TECH_V + " + " + TECH_K),
  "C16": dict(engine="kani", category="proof",
    text="For every byte, each version table (impl_u8_enum! expansions Opcode308/309/310/311, CommonOpcode) maps it to a variant whose number equals dis.opmap of the matching CPython; is_jump_op agrees with dis.hasjrel/hasjabs on every opcode codegen.rs names, for 3.7-3.11; jump_abs_addr_309/310/311 equal CPython's target formula; magic bytes round-trip for every u16 and get_ver_from_magic_num maps each installed interpreter's magic to its version. Loop-free Kani harnesses over the full domain (complete).",
